@@ -334,8 +334,8 @@ def run_run(case):
         mism = float((np.linalg.norm(A_ref - A, axis=1) / den).max())
         res.residual("stored_mismatch_over_tol", mism / case["tol"])
         if mism > TOLERANCES["stored_multiple"] * case["tol"]:
-            res.violate("stored-potential-not-self-consistent", detail={"case": case, "label": int(fr["attrs"]["step"]),
-                                                                        "mismatch": mism, "tol": case["tol"]})
+            res.violate("stored-potential-not-self-consistent", step_size=AB[case["ab"]][0], step_drag=AB[case["ab"]][1],
+                        detail={"case": case, "label": int(fr["attrs"]["step"]), "mismatch": mism, "tol": case["tol"]})
             break
     res.outcome = f"run;{'raised' if raised else 'completed'};maxit={case['maxit']}"
     return res
